@@ -48,7 +48,11 @@ HOSTILE_RULES = ["FREQ=DAILY", "FREQ=DAILY;UNTIL=20000101T000000Z", "FREQ=WEEKLY
                  "FREQ=DAILY;UNTIL=200803", "FREQ=DAILY;UNTIL=123456Z", "FREQ=DAILY;UNTIL=P1D",
                  "FREQ=DAILY;UNTIL=20200101T000000Z/PT1H", "FREQ=DAILY;UNTIL=20200101T000000Z/20200102T000000",
                  "FREQ=DAILY;UNTIL=-PT1H;COUNT=+2", "FREQ=DAILY;BYDAY=+1MO,-53SU,0TU", "FREQ=DAILY;WKST=1MO",
-                 "FREQ=DAILY;X-UNKNOWN=a\\,b;BYDAY=MO"]
+                 "FREQ=DAILY;X-UNKNOWN=a\\,b;BYDAY=MO",
+                 # a rule part written twice
+                 "FREQ=MONTHLY;BYMONTHDAY=1;BYMONTHDAY=15", "FREQ=YEARLY;BYMONTH=3;bymonth=10;BYDAY=-1SU",
+                 "FREQ=DAILY;BYHOUR=1;BYHOUR=2;BYDAY=MO;BYDAY=WE", "FREQ=DAILY;COUNT=1;COUNT=2;INTERVAL=1;INTERVAL=2",
+                 "FREQ=YEARLY;FREQ=DAILY;BYSETPOS=1;BYSETPOS=-1;WKST=MO;WKST=SU"]
 # whole parameter sections (what stands between the property name and the colon)
 HOSTILE_PARAMS = [";CN=a^nb", ';MEMBER="mailto:a@x.org","mailto:b^n@x.org"', ";X-P=one,two^nlines", ";X=^^,^'", ";X=a^,b",
                   ";X=^n,^N", ';CN="a\\nb"', ';X=a,b,"c,d"', ";X=", ";=x", ';X="a"b', ";X=a;X=b", ";X=a;x=b,c", ";TZID=",
